@@ -1,7 +1,7 @@
 from ..driver import Prop, Suite
 from .. import multigen
 
-KINDS = ["arc_full_sync", "arc_crossbeam", "ogre_arc_atomic", "ogre_arc_full_sync"]
+KINDS = ["arc_full_sync", "arc_crossbeam", "ogre_arc_atomic", "ogre_arc_full_sync", "mmap_log"]
 
 class C03(Prop):
     pid = "C03"; prop_file = "C03.v"
@@ -14,7 +14,7 @@ class C03(Prop):
             "everything accepted after the last creation returned must reach every listener. "
             "non-trivial = at least 2 listeners and a context switch inside a fan-out loop (setup: two creations overlap)")
     trusted_base = ["arc/atomic is the modelled kind; the other four non-log kinds run the same generated cases through the same scheduler hooks but are judged by the oracle only (no lock-step model)",
-                    "the mmap-log Multi channel is covered at the log-topic level under C09, not here",
+                    "the mmap-log Multi channel runs here through the same scheduler, oracle only (its log topic is in lock-step under C09)",
                     "completeness ('every accepted event reaches every listener') is checked on every implementation history at quiescence, the theorems give per-listener at-most-once / order / nothing invented for every schedule",
                     "send / send_with entry points; send_with_async, send_derived and reserve+try_send_reserved are not driven"]
     assumptions = ["the set of listeners does not change during a case (C10 covers changes)", "fewer events than BUFFER_SIZE per case, payload u32"]
